@@ -4,6 +4,7 @@ import (
 	"fmt"
 	"go/types"
 	"strings"
+	"sync"
 
 	"golang.org/x/tools/go/ssa"
 
@@ -14,56 +15,208 @@ import (
 // seam resolves invokes through internal seams.
 var seam = core.Seam
 
-// reachesCall: fn reaches a call matching pred through static callees of its own package, function literals,
-// function / method values it creates (bound-method wrappers included).
-func reachesCall(fn *ssa.Function, pred func(*ssa.CallCommon) bool, seen map[*ssa.Function]bool) bool {
+// reachCut: functions that reach analysis does not enter as callees (the cache accessor: creation re-enters through
+// it, which would make every routine of the creation path reach everything).  Set per query by lowestReaching.
+var reachCut = map[*ssa.Function]bool{}
+var reachCutMu sync.Mutex
+
+// reachInfo: calls = executing fn can execute a call matching the predicate; makes = fn creates (or obtains from a
+// callee) function values whose execution can.
+type reachInfo struct{ calls, makes bool }
+
+func resolveWrapper(fn *ssa.Function) *ssa.Function {
 	if fn != nil && fn.Blocks == nil && strings.HasPrefix(fn.Synthetic, "bound method wrapper") {
 		if m, ok := fn.Object().(*types.Func); ok && fn.Prog != nil {
-			fn = fn.Prog.FuncValue(m)
+			return fn.Prog.FuncValue(m)
 		}
 	}
-	if fn == nil || fn.Blocks == nil || seen[fn] {
-		return false
-	}
-	seen[fn] = true
+	return fn
+}
+
+// reachNode is one function's local facts for the reach fixpoint.
+type reachNode struct {
+	direct     bool
+	hasDynamic bool
+	callees    []*ssa.Function // executed by fn (static callees in package, seams, immediately called literals)
+	values     []*ssa.Function // function / method values fn creates
+}
+
+func reachLocal(fn *ssa.Function, pred func(*ssa.CallCommon) bool) *reachNode {
+	n := &reachNode{}
 	pkg := core.PkgOf(fn)
 	if pkg == nil && fn.Object() != nil && fn.Object().Pkg() != nil && fn.Prog != nil {
 		pkg = fn.Prog.Package(fn.Object().Pkg())
 	}
+	inPkg := func(g *ssa.Function) bool {
+		return g != nil && g.Blocks != nil && (core.PkgOf(g) == pkg || g.Synthetic != "")
+	}
 	for _, b := range fn.Blocks {
 		for _, in := range b.Instrs {
+			var calleeVal ssa.Value
 			if ci, ok := in.(ssa.CallInstruction); ok {
-				if pred(ci.Common()) {
-					return true
+				com := ci.Common()
+				if pred(com) {
+					n.direct = true
 				}
-				if seam != nil {
-					if g := seam(ci.Common()); g != nil && reachesCall(g, pred, seen) {
-						return true
+				calleeVal = com.Value
+				var g *ssa.Function
+				switch v := com.Value.(type) {
+				case *ssa.Function:
+					g = v
+				case *ssa.MakeClosure:
+					g, _ = v.Fn.(*ssa.Function)
+				}
+				if com.IsInvoke() {
+					g = seam(com)
+					calleeVal = nil
+				} else if g == nil {
+					if _, isB := com.Value.(*ssa.Builtin); !isB {
+						n.hasDynamic = true
+					}
+				}
+				if g = resolveWrapper(g); inPkg(g) && !reachCut[g] {
+					n.callees = append(n.callees, g)
+				}
+				for _, a := range com.Args {
+					if _, isSig := a.Type().Underlying().(*types.Signature); isSig {
+						n.hasDynamic = true // a function value handed to a callee may be called there
 					}
 				}
 			}
 			var ops []*ssa.Value
 			for _, op := range in.Operands(ops) {
-				if *op == nil {
+				if *op == nil || *op == calleeVal {
 					continue
 				}
-				if g, ok := (*op).(*ssa.Function); ok && (core.PkgOf(g) == pkg || g.Synthetic != "") {
-					if reachesCall(g, pred, seen) {
-						return true
-					}
+				var g *ssa.Function
+				switch v := (*op).(type) {
+				case *ssa.Function:
+					g = v
+				case *ssa.MakeClosure:
+					g, _ = v.Fn.(*ssa.Function)
+				}
+				if g = resolveWrapper(g); inPkg(g) {
+					n.values = append(n.values, g)
+				}
+			}
+			if mc, ok := in.(*ssa.MakeClosure); ok {
+				if g, _ := mc.Fn.(*ssa.Function); inPkg(resolveWrapper(g)) {
+					n.values = append(n.values, resolveWrapper(g))
+				}
+			}
+			if mi, ok := in.(*ssa.MakeInterface); ok {
+				if _, isSig := mi.X.Type().Underlying().(*types.Signature); isSig {
+					n.hasDynamic = true // a function value boxed into an interface is handed to whoever calls its method
 				}
 			}
 		}
 	}
-	return false
+	return n
+}
+
+// reachOf computes the reach of fn by a fixpoint over the functions it can run or make (recursion-safe).
+func reachOf(fn *ssa.Function, pred func(*ssa.CallCommon) bool, memo map[*ssa.Function]*reachInfo) reachInfo {
+	fn = resolveWrapper(fn)
+	if fn == nil || fn.Blocks == nil {
+		return reachInfo{}
+	}
+	if ri, ok := memo[fn]; ok {
+		return *ri
+	}
+	nodes := map[*ssa.Function]*reachNode{}
+	var order []*ssa.Function
+	var collect func(f *ssa.Function)
+	collect = func(f *ssa.Function) {
+		if f == nil || nodes[f] != nil {
+			return
+		}
+		if _, done := memo[f]; done {
+			return
+		}
+		nodes[f] = reachLocal(f, pred)
+		order = append(order, f)
+		for _, g := range nodes[f].callees {
+			collect(g)
+		}
+		for _, g := range nodes[f].values {
+			collect(g)
+		}
+	}
+	collect(fn)
+	cur := map[*ssa.Function]*reachInfo{}
+	get := func(f *ssa.Function) reachInfo {
+		if ri, ok := memo[f]; ok {
+			return *ri
+		}
+		if ri, ok := cur[f]; ok {
+			return *ri
+		}
+		return reachInfo{}
+	}
+	for _, f := range order {
+		cur[f] = &reachInfo{calls: nodes[f].direct}
+	}
+	for changed := true; changed; {
+		changed = false
+		for _, f := range order {
+			n, ri := nodes[f], cur[f]
+			calls, makes := ri.calls, ri.makes
+			for _, g := range n.callees {
+				x := get(g)
+				calls = calls || x.calls
+				makes = makes || x.makes
+			}
+			for _, g := range n.values {
+				x := get(g)
+				if x.calls || x.makes {
+					makes = true
+				}
+			}
+			if n.hasDynamic && makes {
+				calls = true
+			}
+			if calls != ri.calls || makes != ri.makes {
+				ri.calls, ri.makes = calls, makes
+				changed = true
+			}
+		}
+	}
+	for f, ri := range cur {
+		memo[f] = ri
+	}
+	return *memo[fn]
+}
+
+// reachesCall: executing fn can execute a call matching pred (through static callees of its own package, internal
+// seams, and function / method values it creates or obtains and then calls or hands on). seen collects the functions
+// looked at.
+func reachesCall(fn *ssa.Function, pred func(*ssa.CallCommon) bool, seen map[*ssa.Function]bool) bool {
+	memo := map[*ssa.Function]*reachInfo{}
+	ri := reachOf(fn, pred, memo)
+	for f := range memo {
+		seen[f] = true
+	}
+	return ri.calls
 }
 
 // lowestReaching returns the in-scope functions of package pkgRel that reach calls matching every predicate while
-// none of the functions they directly use does (the smallest subject that contains the whole protocol).
+// none of the functions they call (or whose function values they run) does: the smallest subject that contains the
+// whole protocol.
 func lowestReaching(c *core.Ctx, pkgRel string, preds ...func(*ssa.CallCommon) bool) []*ssa.Function {
+	reachCutMu.Lock()
+	defer reachCutMu.Unlock()
+	reachCut = map[*ssa.Function]bool{}
+	for _, a := range c.Roles().CacheAccessors() {
+		reachCut[a] = true
+	}
+	defer func() { reachCut = map[*ssa.Function]bool{} }()
+	memos := make([]map[*ssa.Function]*reachInfo, len(preds))
+	for i := range memos {
+		memos[i] = map[*ssa.Function]*reachInfo{}
+	}
 	all := func(f *ssa.Function) bool {
-		for _, p := range preds {
-			if !reachesCall(f, p, map[*ssa.Function]bool{}) {
+		for i, p := range preds {
+			if !reachOf(f, p, memos[i]).calls {
 				return false
 			}
 		}
@@ -72,27 +225,37 @@ func lowestReaching(c *core.Ctx, pkgRel string, preds ...func(*ssa.CallCommon) b
 	var out []*ssa.Function
 	for _, fn := range c.Scope {
 		p := core.PkgOf(fn)
-		if p == nil || p.Pkg.Path() != core.Mod+"/"+pkgRel || fn.Synthetic != "" {
+		if p == nil || p.Pkg.Path() != core.Mod+"/"+pkgRel || fn.Synthetic != "" || fn.Parent() != nil {
 			continue
 		}
 		if !all(fn) {
 			continue
 		}
 		lower := false
-		for _, b := range fn.Blocks {
-			for _, in := range b.Instrs {
-				if ci, ok := in.(ssa.CallInstruction); ok && seam != nil {
-					if g := seam(ci.Common()); g != nil && g != fn && all(g) {
-						lower = true
+		for _, body := range core.WithAnon(fn) {
+			for _, b := range body.Blocks {
+				for _, in := range b.Instrs {
+					if ci, ok := in.(ssa.CallInstruction); ok {
+						if g := seam(ci.Common()); g != nil && g != fn && !reachCut[g] && all(g) {
+							lower = true
+						}
 					}
-				}
-				var ops []*ssa.Value
-				for _, op := range in.Operands(ops) {
-					if *op == nil {
-						continue
-					}
-					if g, ok := (*op).(*ssa.Function); ok && g != fn && (core.PkgOf(g) == p || g.Synthetic != "") && all(g) {
-						lower = true
+					var ops []*ssa.Value
+					for _, op := range in.Operands(ops) {
+						if *op == nil {
+							continue
+						}
+						var g *ssa.Function
+						switch v := (*op).(type) {
+						case *ssa.Function:
+							g = v
+						case *ssa.MakeClosure:
+							g, _ = v.Fn.(*ssa.Function)
+						}
+						g = resolveWrapper(g)
+						if g != nil && g != fn && !reachCut[g] && (core.PkgOf(g) == p || g.Synthetic != "") && core.TopLevel(g) != fn && all(g) {
+							lower = true
+						}
 					}
 				}
 			}
